@@ -459,11 +459,11 @@ pub fn gen_cmd(rng: &mut Rng, w: &CliWorld) -> UCmd {
 
 fn gen_world_and_cmd(seed: u64) -> (CliWorld, UCmd) {
   let mut r = Rng::stream(seed, "world");
-  let mut w = cli_world::gen_world(&mut r, &GenOpts { max_files: 8, allow_special: true, with_tests: false, fix_heavy: true, order_sensitive_rules: false });
+  let mut w = cli_world::gen_world(&mut r, &GenOpts { max_files: 8, allow_special: true, with_tests: false, fix_heavy: true, order_sensitive_rules: false, hard_links: false });
   // embedded documents are the interesting case: make them frequent
   if r.chance(0.5) {
     let n = w.files.len();
-    w.files.push(cli_world::SrcFile { path: format!("web/page{n}.html"), text: cli_world::gen_source(&mut r, "Html"), hex: None, kind: s("normal") });
+    w.files.push(cli_world::SrcFile { path: format!("web/page{n}.html"), text: cli_world::gen_source(&mut r, "Html"), hex: None, kind: s("normal"), link_to: None });
     let have: Vec<String> = w.languages();
     let mut extra = vec![];
     for (l, t) in [("Html", "html-p"), ("JavaScript", "no-console"), ("JavaScript", "eqeqeq"), ("Css", "css-red")] {
